@@ -73,6 +73,21 @@ var profVariants = []profVariant{
 	{"rego-unsafe-builtin", "profile: X\nprefixes:\n  ex: http://ex.org/v#\nviolation: [v]\nvalidations:\n  v:\n    targetClass: ex.T\n    rego: \"$result = http.send({})\"\n", 2, "err"},
 }
 
+// more results of a shape the report builder cannot use: a member of one level's collection that is not a result node (the
+// embedded Rego adds it to the rule the report is read from), and a level that is no collection at all
+func init() {
+	for _, level := range []string{"violation", "warning", "info"} {
+		for k, member := range []string{`"not a result node"`, `7`, `[1, 2]`, `true`} {
+			text := "profile: shape\nprefixes:\n  ex: http://ex.org/v#\nrego_extensions: |\n  " + level + "[" + member + "] {\n    true\n  }\n" + level + ":\n  - v\nvalidations:\n  v:\n    targetClass: ex.T\n    message: m\n    propertyConstraints:\n      ex.p0:\n        minCount: 1\n"
+			profVariants = append(profVariants, profVariant{fmt.Sprintf("report-shape-%s-member-%d", level, k), text, 7, "err"})
+		}
+		for k, value := range []string{`"x"`, `5`, `{"a": 1}`} {
+			text := "profile: shape\nrego_extensions: '" + level + " = " + value + "'\nvalidations: {}"
+			profVariants = append(profVariants, profVariant{fmt.Sprintf("report-shape-%s-value-%d", level, k), text, 7, "err"})
+		}
+	}
+}
+
 // a profile whose evaluation fails at run time: a function with two different outputs for one input
 const evalConflictProfile = `profile: Conflict
 prefixes:
